@@ -45,12 +45,15 @@ class XTruncation(XArrayError):
 
 
 class XArray:
-    __slots__ = ("shape", "data", "dtype")
+    # `order`: memory layout as far as it is observable (flags.c_contiguous / f_contiguous): None = C-contiguous, otherwise the
+    # axis permutation p such that this array is base.transpose(p) of a C-contiguous base (only transposes / swapaxes make it)
+    __slots__ = ("shape", "data", "dtype", "order")
 
     def __init__(self, shape, data, dtype=None):
         self.shape = tuple(int(s) for s in shape)
         self.data = list(data)
         self.dtype = dtype
+        self.order = None
         if len(self.data) != _prod(self.shape):
             raise XArrayError(f"shape {self.shape} does not match {len(self.data)} items")
 
@@ -58,7 +61,9 @@ class XArray:
     @staticmethod
     def from_nested(obj):
         if isinstance(obj, XArray):
-            return XArray(obj.shape, obj.data, obj.dtype)
+            out = XArray(obj.shape, obj.data, obj.dtype)
+            out.order = obj.order  # (np.asarray of an array is that array: same memory layout)
+            return out
 
         def shape_of(o):
             if isinstance(o, XArray):
@@ -155,11 +160,30 @@ class XArray:
         for idx in _iproduct(*[range(s) for s in newshape]):
             off = sum(idx[k] * strides[axes[k]] for k in range(self.ndim))
             out.append(self.data[off])
-        return XArray(newshape, out, self.dtype)
+        res = XArray(newshape, out, self.dtype)
+        base = self.order if self.order is not None else tuple(range(self.ndim))
+        perm = tuple(base[a] for a in axes)
+        res.order = None if perm == tuple(range(self.ndim)) else perm
+        return res
 
     @property
     def T(self):
         return self.transpose()
+
+    @property
+    def flags(self):
+        from types import SimpleNamespace
+
+        c = self.order is None or self.ndim <= 1
+        f_ = self.ndim <= 1 or (self.order is not None and self.order == tuple(reversed(range(self.ndim))))
+
+        class _Flags(SimpleNamespace):
+            _xeval_open = True
+
+            def __getitem__(self_, k):
+                return {"C_CONTIGUOUS": self_.c_contiguous, "F_CONTIGUOUS": self_.f_contiguous, "C": self_.c_contiguous, "F": self_.f_contiguous}[str(k).upper()]
+
+        return _Flags(c_contiguous=c, f_contiguous=f_, contiguous=c, writeable=True, owndata=self.order is None)
 
     def _strides(self):
         st, acc = [], 1
